@@ -296,7 +296,10 @@ def run(prop, argv, meta_focus):
     lines = []
     meta = {}
     for pid, k, th, small, nostuck in progs:
+        yields = any(o[0] in "DXY" for t in th for o in t)
         for si, (seed, strat) in enumerate(scheds):
+            if strat == 1 and yields:
+                strat = 3        # PCT is unfair to sched_yield loops (drain / compensating variants)
             cid = "%s.%d" % (pid, si)
             lines.append("%s %d %d %d 0 %s" % (cid, seed, strat, k, model_prog(th)))
             meta[cid] = (pid, k, th, small, nostuck, seed, strat)
